@@ -117,10 +117,12 @@ impl Driver for DispatcherSwap {
             // (simulated 1:1 by the swap contract of this world) is there for a later one
             let mut offered: BTreeMap<String, u128> = BTreeMap::new();
             let mut bal = held.clone();
-            let mut ok = true; let mut returns = true;
+            let mut ok = true; let mut returns = true; let mut nonzero = true;
             for m in r.messages.iter() {
                 if let CosmosMsg::Wasm(WasmMsg::Execute { funds, msg, .. }) = &m.msg {
                     let mut got = 0u128;
+                    // the bank module rejects a zero coin, and with it the whole UpdateGlobalIndex transaction
+                    if funds.is_empty() || funds.iter().any(|f| f.amount.is_zero()) { nonzero = false; }
                     for f in funds {
                         *offered.entry(f.denom.clone()).or_insert(0) += f.amount.u128();
                         let e = bal.entry(f.denom.clone()).or_insert(0);
@@ -135,6 +137,7 @@ impl Driver for DispatcherSwap {
             }
             c.insert("dswap#never_offers_more_than_held".to_string(), ok);
             c.insert("dswap#proceeds_return_to_dispatcher".to_string(), returns);
+            c.insert("dswap#never_offers_zero_coins".to_string(), nonzero);
             let known: std::collections::BTreeSet<String> = input["swap_denoms"].as_array().unwrap().iter().map(|d| d.as_str().unwrap().to_string()).collect();
             // with only the two reward coins held, the rebalancing swap is exactly what the split formula (the real get_swap_info, through its hook) asks for
             let only_rewards = held.iter().all(|(d, a)| *a == 0 || d == "usei" || d == "uusd") && known.contains("usei") && known.contains("uusd");
